@@ -1,6 +1,5 @@
 from typing import TYPE_CHECKING, TypedDict
 
-from prosemirror.utils import text_length
 
 from . import node as pm_node
 
@@ -70,14 +69,15 @@ def find_diff_end(a: "Fragment", b: "Fragment", pos_a: int, pos_b: int) -> Diff 
             assert isinstance(child_a, pm_node.TextNode)
             assert isinstance(child_b, pm_node.TextNode)
             if child_a.text != child_b.text:
-                same, min_size = (
-                    0,
-                    min(text_length(child_a.text), text_length(child_b.text)),
-                )
+                # positions count UTF-16 code units, so compare unit by unit
+                units_a = child_a.text.encode("utf-16-le")
+                units_b = child_b.text.encode("utf-16-le")
+                len_a, len_b = len(units_a) // 2, len(units_b) // 2
+                same, min_size = 0, min(len_a, len_b)
                 while (
                     same < min_size
-                    and child_a.text[text_length(child_a.text) - same - 1]
-                    == child_b.text[text_length(child_b.text) - same - 1]
+                    and units_a[2 * (len_a - same - 1) : 2 * (len_a - same)]
+                    == units_b[2 * (len_b - same - 1) : 2 * (len_b - same)]
                 ):
                     same += 1
                     pos_a -= 1
